@@ -2,5 +2,5 @@ SPECIFICATION Spec
 CONSTANTS
   MaxOpts = 2
   DumpCases = TRUE
-INVARIANTS StepwiseIsFrontEnd WellFormedAccepted ExplicitWins Metamorphic
+INVARIANTS StepwiseIsFrontEnd WellFormedAccepted ExplicitWins Metamorphic DeviationIsRejection
 CHECK_DEADLOCK FALSE
